@@ -136,9 +136,22 @@ fn points(quick: bool) -> Vec<C> {
     for i in 0..nline {
         let x = 1e-3 * (1e4f64).powf(i as f64 / (nline - 1) as f64);
         for sx in [1.0, -1.0] {
-            for eps in [1e-9, -1e-9, 1e-13, -1e-13, 0.0, -0.0] {
+            // offsets from the axis down to the smallest subnormal: a quotient by c + 1e-200 i must not depend on which part is larger
+            for eps in [1e-9, -1e-9, 1e-13, -1e-13, 0.0, -0.0, 1e-200, -1e-200, 5e-324, -1e-300] {
                 pts.push((sx * x, eps));
                 pts.push((eps, sx * x));
+            }
+        }
+    }
+    // next to the poles of tan / sec (odd multiples of pi/2 inside |z| <= 10), csc / cot (multiples of pi) and of their hyperbolic
+    // twins on the imaginary axis, at distances 1e-4 and 1e-5 in 8 directions: formulae that cancel near a pole lose digits here
+    for k in [1.0f64, -1.0, 3.0, -3.0, 5.0, 2.0, -2.0, 4.0, 6.0] {
+        let pole = k * PI / 2.0;
+        for dist in [1e-4, 1e-5] {
+            for j in 0..8 {
+                let t = PI * (j as f64) / 4.0 + 0.1;
+                pts.push((pole + dist * t.cos(), dist * t.sin()));
+                pts.push((dist * t.sin(), pole + dist * t.cos()));
             }
         }
     }
@@ -338,7 +351,7 @@ fn main() {
     let ctx = Ctx::from_args("C14");
     ctx.level("exploration");
     ctx.rule("E1: rectangular grid re, im in {0, +-1e-9, +-1e-3, +-1/2, +-1, +-(1+-1e-6), +-2, +-3, +-10} with 1e-3 <= |z| <= 10, polar grid r in {1e-3, 0.1, 1-1e-6, 1, 1+1e-6, 2, 10} x 16 (quick) / 32 (thorough) angles, 1e-6 neighbourhoods of +-1 and +-i, i.e. every quadrant, both axes and both sides (imaginary/real part +-1e-9) of every branch cut; each of the 38 public functions at each point. Oracle: own complex arithmetic with exp by scaling-and-squaring Taylor series and sin/cos/sinh/cosh from it (forward functions, relative 1e-9); every inverse pinned by forward_oracle(inverse(z)) = z (1e-8) and its principal range; reciprocals, Pythagorean identities, z^w = exp(w ln z) for 7 exponents, polar round trip, reduction to f64 functions on the real axis. Non-trivial: points within 1e-9 of a cut, within 1e-6 of a branch point, each quadrant.");
-    ctx.assume("which side of a cut is continuous is not prescribed; exactly-on-cut points are judged by right inverse + closed principal range only");
+    ctx.assume("which side of a cut is continuous is not prescribed; exactly-on-cut points are judged by right inverse + closed principal range only (the value -pi of Im ln / arg at an imaginary part -0.0, outside the stated half-open range, is carried by two listed inputs as a known finding)");
     ctx.assume("poles of tan/sec/csc/cot/tanh/... are avoided when the oracle's denominator is below 1e-6");
     ctx.threshold("forward_exp", FWD);
     ctx.threshold("forward_trig_hyperbolic", FWD);
@@ -389,5 +402,27 @@ fn main() {
             }
         },
     );
+    // Known finding (second bug hunt): the statement gives Im ln z in (-pi, pi]. For a negative real number whose imaginary part is
+    // -0.0 (produced by negation, conjugation, multiplication by -1) arg() = atan2(-0.0, x) = -pi: the C99 signed-zero convention,
+    // continuous from below, but outside the stated half-open range and 2 pi i away from ln of the ==-equal number -x + 0i.
+    // Not repaired: a deliberate convention of atan2 that callers working with signed zeros may rely on. The lattice above accepts
+    // the closed range on the cut; the two listed inputs carry the finding.
+    {
+        ctx.known_cases(
+            "listed inputs: ln / arg of a negative real number with imaginary part -0.0",
+            vec![
+                ("signed-zero ln(-1 - 0i)".to_string(), Box::new(|| {
+                    let l = Cmplx::new(-1.0, -0.0).ln();
+                    ensure!(l.imag > -PI && l.imag <= PI, "ln(-1 - 0i) = {:?}: imaginary part outside (-pi, pi] (ln(-1 + 0i) = {:?})", l, Cmplx::new(-1.0, 0.0).ln());
+                    Ok(())
+                })),
+                ("signed-zero arg(-2 - 0i)".to_string(), Box::new(|| {
+                    let a = Cmplx::new(-2.0, -0.0).arg();
+                    ensure!(a > -PI && a <= PI, "arg(-2 - 0i) = {} is outside (-pi, pi]", a);
+                    Ok(())
+                })),
+            ],
+        );
+    }
     std::process::exit(ctx.finish());
 }
